@@ -824,7 +824,7 @@ def abbreviate(rng, tr):
 
 
 FACET_MODES = ['f_trcl_num', 'f_trcl_inline', 'f_trcl_star', 'f_trcl_inline3',
-               'f_fill_tr', 'f_fill_star']
+               'f_fill_tr', 'f_fill_star', 'f_fill_trcl', 'f_fill_trcl_num']
 
 
 def gen_facet_deck(rng, mode):
@@ -852,11 +852,22 @@ def gen_facet_deck(rng, mode):
         origin = gen_origin(rng)
         spec = {'O': tuple(origin), 'B': None, 'star': False, 'print': origin}
     transforms = {}
-    if mode in ('f_fill_tr', 'f_fill_star'):
+    if mode in ('f_fill_tr', 'f_fill_star', 'f_fill_trcl', 'f_fill_trcl_num'):
+        filled = {'id': 1, 'mat': 0, 'rho': None, 'expr': ('s', -20),
+                  'imp': {'n': 1}, 'u': 0, 'fill': {'u': 1, 'tr': spec}}
+        if mode == 'f_fill_trcl':
+            # FILL without a transformation + TRCL on the filled cell: its
+            # boundary AND the universe inside move together
+            filled['fill'] = {'u': 1, 'tr': None}
+            filled['trcl'] = spec
+        elif mode == 'f_fill_trcl_num':
+            filled['fill'] = {'u': 1, 'tr': None}
+            filled['trcl'] = ('num', 7)
+            transforms[7] = spec
         cells = [
-            {'id': 1, 'mat': 0, 'rho': None, 'expr': ('s', -20),
-             'imp': {'n': 1}, 'u': 0, 'fill': {'u': 1, 'tr': spec}},
-            {'id': 2, 'mat': 0, 'rho': None, 'expr': ('s', 20),
+            filled,
+            {'id': 2, 'mat': 0, 'rho': None,
+             'expr': ('#c', 1) if 'trcl' in filled else ('s', 20),
              'imp': {'n': 0}, 'u': 0},
             {'id': 3, 'mat': 0, 'rho': None, 'expr': expr, 'imp': {'n': 1},
              'u': 1},
@@ -955,10 +966,22 @@ def collect_refs(expr, out):
             collect_refs(sub, out)
 
 
-def check_deck(deck, rng, n_points):
+# the converter's option sets that change HOW cells are assembled (inlining
+# of filled / filling cells, de-duplication), never WHAT region a cell is
+OPTION_SETS = [
+    [],
+    ['--always-inline-filling'],
+    ['--always-inline-filled'],
+    ['--always-inline-filling', '--always-inline-filled'],
+    ['--skip-deduplication'],
+    ['--skip-deduplication', '--always-inline-filling'],
+]
+
+
+def check_deck(deck, rng, n_points, opts=()):
     '''Returns (status, detail): 'ok' | 'rejected' | 'mismatch'.'''
     text = render(deck)
-    conv = impl.convert(text)
+    conv = impl.convert(text, list(opts))
     if not conv.ok or conv.text is None:
         return 'rejected', f'{conv.exc}: {conv.msg[:160]}', text
     try:
@@ -1184,9 +1207,9 @@ WITNESS_DECKS = {
 }
 
 
-def witness_fails(cls, rng):
+def witness_fails(cls, rng, opts=()):
     '''Replay the witness of an open class; (still_failing, description).'''
-    conv = impl.convert(WITNESSES.get(cls) or CORPUS[cls])
+    conv = impl.convert(WITNESSES.get(cls) or CORPUS[cls], list(opts))
     if not conv.ok or conv.text is None:
         return True, f'{conv.exc}: {conv.msg[:120]}'
     ref = WITNESS_DECKS.get(cls)
@@ -1257,13 +1280,18 @@ def run_body(res, rng, quick, seed):
                           {'input': {'deck': WITNESSES[cls]}}, cls=cls,
                           found_input=True)
     for name in sorted(CORPUS):
-        failing, what = witness_fails(name, random.Random(seed + 2))
-        res.count(f'corpus:{name}:{"fails" if failing else "passes"}')
-        if failing:
-            res.violation('impl-violation', f'corpus deck {name} (repaired '
-                          f'defect) fails again: {what}',
-                          {'input': {'deck': CORPUS[name]}}, cls=None,
-                          found_input=True)
+        # every corpus deck under the default options and under the inlining
+        # option sets (the region of a cell does not depend on them)
+        for opts in OPTION_SETS[:4]:
+            failing, what = witness_fails(name, random.Random(seed + 2), opts)
+            tag = ' '.join(opts) or 'default'
+            res.count(f'corpus:{name}:{"fails" if failing else "passes"}')
+            if failing:
+                res.violation('impl-violation', f'corpus deck {name} '
+                              f'(options: {tag}) fails: {what}',
+                              {'input': {'deck': CORPUS[name],
+                                         'options': list(opts)}}, cls=None,
+                              found_input=True)
 
     for name, (text, exc) in sorted(MUST_REJECT.items()):
         conv = impl.convert(text)
@@ -2248,18 +2276,22 @@ def sweep_decks(res, rng, n):
             deck['cells'].append({'id': 3, 'mat': 0, 'rho': None,
                                   'expr': ('s', -(1000 + moved[0][0]['id'])),
                                   'imp': {'n': 0}, 'u': 0})
-        status, detail, text = check_deck(deck, rng, 120)
+        opts = rng.choice(OPTION_SETS) if rng.random() < 0.5 else []
+        status, detail, text = check_deck(deck, rng, 120, opts)
         classes = deck_classes(deck, moved)
         res.seen(text)
         res.count(f'deck:{mode}:{status}')
+        res.count('deck-options:' + (' '.join(opts) or 'default'))
         if status == 'ok':
             ok += 1
             res.sample({'deck': text}, limit=3)
             continue
         cls = None
         res.violation('impl-violation',
-                      f'deck ({mode}) {status}: {detail}',
-                      {'input': {'deck': text}, 'mode': mode,
+                      f'deck ({mode}; options {" ".join(opts) or "default"}) '
+                      f'{status}: {detail}',
+                      {'input': {'deck': text, 'options': list(opts)},
+                       'mode': mode,
                        'classes': sorted(classes)}, cls=cls,
                       found_input=True)
     res.obligation(f'sweep: {n} probe decks converted and compared with the '
